@@ -1,1 +1,95 @@
-/- C15 — property theorems (to be written) -/
+/-
+  C15 — metrics collection is transparent, exact and session-isolated (the counter side).
+  Property theorems only; helper lemmas live in FtProofs/Lemmas/Metrics*.lean.
+
+  Part A speaks about the `Metrics` class alone (any client), part B about the sum-of-products
+  kernels of FtModel/MetricsKernel.lean.
+-/
+import FtProofs.Lemmas.MetricsLemmas
+import FtProofs.Lemmas.MetricsSession
+set_option linter.unusedSectionVars false
+set_option linter.unusedSimpArgs false
+set_option linter.unusedVariables false
+namespace Ft.C15
+
+/-! ## A. the class -/
+
+/-- **`beginCollect` resets every attribute**: whatever ran before, the state it leaves depends only
+    on the prefix — and on the two things it does not touch, the flush threshold
+    (`num_cached_uses`) and the trace files on disk. -/
+theorem beginCollect_const (p : Option String) (s₁ s₂ : MState)
+    (hn : s₁.numCachedUses = s₂.numCachedUses) (hf : s₁.fs = s₂.fs) :
+    step (.beginCollect p) s₁ = step (.beginCollect p) s₂ := by
+  simp [step, mBegin, hn, hf]
+
+/-- **session isolation, any client**: a session (`beginCollect`, any calls — each may depend on what
+    the earlier ones returned —, `endCollect`) returns the same values and leaves the same attributes
+    and files from any two earlier histories that agree on the threshold and on the files. -/
+theorem session_isolated (p : Option String) (client : Prog) (s₁ s₂ : MState)
+    (hn : s₁.numCachedUses = s₂.numCachedUses) (hf : s₁.fs = s₂.fs) :
+    session p client s₁ = session p client s₂ := by
+  unfold session
+  rw [beginCollect_const p s₁ s₂ hn hf]
+
+/-- **exact counters**: after `beginCollect` and any calls that do not open another session,
+    `dump()[line][metric]` (`Compute.numOps`) is the sum of the `incCount(line', metric, n)` calls
+    with `line'.strip() = line` — nothing else moves a counter, nothing is lost. -/
+theorem dump_counts_exact (p : Option String) (calls : List MOp) (s₀ s' : MState) (rs : List Ret)
+    (hb : ∀ op ∈ calls, op.isBegin = false)
+    (h : runOps (.beginCollect p :: calls) s₀ = some (rs, s')) (line metric : String) :
+    count s' line metric = sumInc line metric calls := by
+  obtain ⟨x, s1, rs', h1, h2, _⟩ := runOps_cons h
+  simp only [step, Option.some.injEq, Prod.mk.injEq] at h1
+  rw [runOps_count h2 hb line metric, ← h1.2]
+  simp [count, mBegin, dget]
+
+/-- **exact iteration counts**: in a structured session (file traces declared after `beginCollect`,
+    then only the calls a loop nest makes, then `endCollect`), for every declared trace whose rank
+    was registered, `Compute.numIters` of its file is the number of `addUse` calls for that rank and
+    type — whatever the flush threshold, whatever the file held before. -/
+theorem numIters_eq_uses (p : String) (keys : List TKey) (body : List MOp) (s₀ s' : MState) (rs : List Ret)
+    (hbody : ∀ op ∈ body, op.inBody = true)
+    (hrun : runOps (openOps p keys ++ body ++ [.endCollect]) s₀ = some (rs, s'))
+    (r ty : String) (hk : (r, ty) ∈ keys) (hreg : registers r body = true) :
+    numIters (fileOf s' p r ty) = nUse r ty body := by
+  obtain ⟨s2, hs2, hc2, hend⟩ := session_inv hbody hrun hk
+  rw [hreg] at hc2
+  rw [numIters, mEnd_file hs2 hc2 hend]
+  omega
+
+/-- **the leak** (what the code does for a declared trace whose rank is never registered in the
+    session — its loop never starts): the file is exactly what it was before the session. -/
+theorem unregistered_trace_keeps_file (p : String) (keys : List TKey) (body : List MOp) (s₀ s' : MState)
+    (rs : List Ret) (hbody : ∀ op ∈ body, op.inBody = true)
+    (hrun : runOps (openOps p keys ++ body ++ [.endCollect]) s₀ = some (rs, s'))
+    (r ty : String) (hk : (r, ty) ∈ keys) (hreg : registers r body = false) :
+    fileOf s' p r ty = fileOf s₀ p r ty := by
+  obtain ⟨s2, hs2, hc2, hend⟩ := session_inv hbody hrun hk
+  rw [hreg] at hc2
+  exact mEnd_file_stale hs2 hc2 hend
+
+/-- hence **the iteration count is exact for every declared trace as long as no stale file is in
+    the way** (fresh prefix, or the earlier file empty): registered or not. -/
+theorem numIters_eq_uses_partial (p : String) (keys : List TKey) (body : List MOp) (s₀ s' : MState)
+    (rs : List Ret) (hbody : ∀ op ∈ body, op.inBody = true)
+    (hrun : runOps (openOps p keys ++ body ++ [.endCollect]) s₀ = some (rs, s'))
+    (r ty : String) (hk : (r, ty) ∈ keys)
+    (hfresh : registers r body = false → numIters (fileOf s₀ p r ty) = 0)
+    (huse : registers r body = false → nUse r ty body = 0) :
+    numIters (fileOf s' p r ty) = nUse r ty body := by
+  cases hreg : registers r body with
+  | true => exact numIters_eq_uses p keys body s₀ s' rs hbody hrun r ty hk hreg
+  | false =>
+    rw [unregistered_trace_keeps_file p keys body s₀ s' rs hbody hrun r ty hk hreg, hfresh hreg, huse hreg]
+
+/-- the full statement (without the freshness hypothesis) is false: **witness** — after a session
+    that traced rank K and left one row, a session that declares the same trace and never reaches
+    rank K reports one iteration; in a fresh process it reports none. -/
+theorem stale_file_witness :
+    let earlier : List MOp := openOps "p" [("K", "iter")] ++ [.registerRank "K", .addUse "K" 3 0 "iter" none, .endCollect]
+    let sess : List MOp := openOps "p" [("K", "iter")] ++ [] ++ [.endCollect]
+    ((runOps (earlier ++ sess) MState.init).map (fun x => numIters (fileOf x.2 "p" "K" "iter")) = some 1) ∧
+    ((runOps sess MState.init).map (fun x => numIters (fileOf x.2 "p" "K" "iter")) = some 0) := by
+  decide
+
+end Ft.C15
